@@ -253,22 +253,24 @@ SAN = ('asan-gcc', 'asan-clang', 'msan')
 def check_c18(tier):
     V = Verdict('C18', tier)
     V.assumptions = ['histories respect the asserted preconditions of the library (DESIGN.md 4.3)', 'sanitizers: g++ 12 and clang 14 ASan+UBSan (no recovery), clang 14 MSan with the instance storage poisoned before construction; allocation entry points are wrapped/replaced and counted while a library call is on the stack']
-    base = [('T2', 1, M_TP, O_TALL), ('T5', 1, M_TP, O_TALL), ('T6', 1, M_TP, O_TALL), ('P5', 1, M_P, O_PALL), ('P7', 1, M_P | mf('PAYLOAD'), O_PALL), ('P3', 2, M_P, O_PALL), ('T3', 2, M_T, O_TALL), ('P2', 0, M_P0 | mf('PAYLOAD'), O_PALL)]
-    if tier == 'thorough': base = [('T2', 2, M_TP, O_TALL), ('T5', 2, M_TP, O_TALL), ('T6', 2, M_TP, O_TALL), ('T1', 2, M_T, O_TALL), ('P5', 1, M_PG, O_PALL), ('P7', 1, M_P | mf('PAYLOAD'), O_PALL), ('P3', 2, M_P, O_PALL), ('T3', 3, M_T, O_TALL), ('P2', 1, M_P0 | mf('PAYLOAD'), O_PALL), ('T4', 1, M_T, O_TALL), ('I1', 1, M_T, O_T), ('P4', 0, M_P0 | mf('PAYLOAD'), O_PALL)]
+    # (config, deviation bound plain build, deviation bound sanitizer builds, menus, operations)
+    base = [('T2', 1, 1, M_TP, O_TALL), ('T5', 1, 1, M_TP, O_TALL), ('T6', 1, 1, M_TP, O_TALL), ('P5', 1, 1, M_P, O_P | og('PLAN_REMOVE', 'COPY', 'DESTROY', 'REACT')), ('P7', 1, 0, M_P0 | mf('PAYLOAD'), O_P | og('PAYLOAD')), ('P3', 2, 1, M_P, O_PALL), ('T3', 2, 2, M_T, O_TALL)]
+    if tier == 'thorough': base = [('T2', 2, 2, M_TP, O_TALL), ('T5', 2, 1, M_TP, O_TALL), ('T6', 2, 2, M_TP, O_TALL), ('T1', 2, 2, M_T, O_TALL), ('P5', 2, 1, M_PG, O_PALL), ('P7', 1, 1, M_P | mf('PAYLOAD'), O_PALL), ('P3', 3, 2, M_P, O_PALL), ('T3', 3, 3, M_T, O_TALL), ('P2', 1, 0, M_P0 | mf('PAYLOAD'), O_P | og('PAYLOAD', 'MANUAL', 'REPLAY')), ('T4', 1, 1, M_T, O_TALL), ('I1', 1, 1, M_T, O_T), ('P4', 0, 0, M_P0 | mf('PAYLOAD'), O_P | og('PAYLOAD'))]
     specs = []
-    for (c, d, m, o) in base:
+    for (c, d, ds, m, o) in base:
         specs.append(S(c, d, m, o, variant='plain', flags=['--copy', '--replica'], props=['C18']))     # alignment + allocation monitors, full speed
         for v in SAN:
-            specs.append(S(c, d if tier == 'thorough' else min(d, 1), m, o, variant=v, flags=['--copy', '--replica'], props=['C18']))
+            specs.append(S(c, ds, m, o, variant=v, flags=['--copy', '--replica'], props=['C18'], share=3 if v == 'msan' else 1))
     vc.run_specs(V, specs, tier, budget=200 if tier == 'quick' else 1500)
     # containers and the extreme machine sizes under ASan+UBSan
     jobs = []
     for v in ('asan-gcc', 'asan-clang'):
-        jobs.append((('seqx_bitstream.cpp', []), dict(variant=v, access=False, extra=['-w']), 'bitstream', ['--workers=%d' % NCPU]))
+        jobs.append((('seqx_bitstream.cpp', []), dict(variant=v, access=False, extra=['-w']), 'bitstream', ['--workers=%d' % NCPU, '--skip-bitwidth']))
         jobs.append((('seqx_containers.cpp', ['VX_PART=3']), dict(variant=v, extra=['-w']), 'tasklist', ['--what=tasklist', '--workers=%d' % NCPU]))
         jobs.append((('seqx_containers.cpp', ['VX_PART=1', 'VX_CLO=1', 'VX_CHI=40']), dict(variant=v, extra=['-w']), 'bitarray', ['--what=bitarray', '--workers=%d' % NCPU]))
         for n in ((1, 2, 255) if tier == 'quick' else (1, 2, 3, 9, 64, 128, 255)):
-            jobs.append((('sweepx_n.cpp', ['VX_NSTATES=%d' % n, 'VX_HEAD=0', 'VX_MANUAL=1', FEAT['SER']]), dict(variant=v, access=False, extra=['-w', '-ftemplate-depth=2048']), 'sweep N=%d' % n, []))
+            if tier == 'quick' and n == 255 and v != 'asan-gcc': continue
+            jobs.append((('sweepx_n.cpp', ['VX_NSTATES=%d' % n, 'VX_HEAD=0', 'VX_MANUAL=1', FEAT['SER']]), dict(variant=v, access=False, extra=['-w', '-ftemplate-depth=2048'] + (['-g0'] if n > 100 else [])), 'sweep N=%d' % n, []))
     built = build_many([(j[0], j[1]) for j in jobs])
     for (a, kw, what, args), (b, err) in zip(jobs, built):
         if err: raise BuildFailed(err)
